@@ -276,13 +276,18 @@ def run(ctx):
                 "watcher position; script of gates, racing API transition and faults) enumerated by TLC from FailureGen; stratified seeded sample; "
                 "non-trivial = a critical task is hit or a transition races")
     # ---- 1. the model: code as it is (open deviations excused), exhaustively, with liveness ------
-    w = 4
+    w = min(8, vlib.NCPU)
     ctx.model_check("Failure", None, workers=w, cfg_text=cfg_model(ctx, hooks=("none", "early", "late")))
     ctx.model_check("Failure", None, workers=w, cfg_text=cfg_model(ctx, racing=True, watch=("select", "busy") if quick else ("select", "unsub", "busy")))
     if not quick:
         ctx.model_check("Failure", None, workers=w, cfg_text=cfg_model(ctx, ntasks=3, layouts=("own", "shared", "mixed")))
         ctx.model_check("Failure", None, workers=w, cfg_text=cfg_model(ctx, faults=2))
         ctx.model_check("Failure", None, workers=w, cfg_text=cfg_model(ctx, ntasks=2, fine=True, watch=("select", "busy"), layouts=("own",)))
+        few = ["TASK_FAILED", "TASK_FINISHED", "AGENT_LOST", "INTERNAL_ERROR"]
+        ctx.model_check("Failure", None, workers=w, cfg_text=cfg_model(ctx, ntasks=2, fine=True, racing=True, watch=("select", "busy"),
+                                                                       layouts=("own",), kinds=few))
+        ctx.model_check("Failure", None, workers=w, cfg_text=cfg_model(ctx, ntasks=3, racing=True, watch=("select", "busy"),
+                                                                       layouts=("mixed",), kinds=few))
     for r in ctx.model_runs:
         if r["result"] != "ok":
             raise vlib.Inconclusive("MODEL: the model of the code as it is violates a property although every known deviation is excused: %s" % r)
@@ -357,8 +362,18 @@ def run(ctx):
         ctx.count_case(json.dumps({k: m[k] for k in ("tasks", "hook", "layout", "state", "watch", "script")}, sort_keys=True).replace(
             "c03s%d" % s["id"], "c"), nontrivial=m["crit_hit"] or any(x[0] == "api" for x in m["script"]))
     ctx.exhaustive = False
-    # ---- 4. run on the real core ---------------------------------------------------------------------
+    # ---- 4. run on the real core, 5. validate ----------------------------------------------------------
     lines = cs.run_scenarios(ctx, scenarios, procs=6 if quick else 10)
+    judge(ctx, scenarios, lines, cex_cases)
+
+
+def replay(ctx, obj):
+    s = obj["scenario"]
+    judge(ctx, [s], cs.run_scenarios(ctx, [s]), [])
+
+
+def judge(ctx, scenarios, lines, cex_cases):
+    by_id = {s["id"]: s for s in scenarios}
     HOOKS = {"env.watch.start", "env.watch.subscribed", "env.watch.recv", "env.watch.fire", "wf.notify.sent", "wf.notify.dropped",
              "wf.notify.nosub", "env.lock.acquired", "env.lock.release", "env.setstate"}
 
@@ -401,8 +416,12 @@ def run(ctx):
         per.setdefault(ln.get("scn", -1), []).append(ln)
     for s in scenarios:
         tr = per.get(s["id"], [])
-        bad = [x for x in tr if (x["ev"] == "Fault" and not x.get("ok")) or (x["ev"] == "GateReached" and not x.get("ok"))
-               or (x["ev"] == "End" and x.get("tainted"))]
+        bad = [x for x in tr if (x["ev"] == "Fault" and not x.get("ok")) or (x["ev"] == "End" and x.get("tainted"))]
+        # a gate that nobody reached: the run is still a real execution (judged on its recorded facts), but not the intended schedule
+        missed = [x["point"] for x in tr if x["ev"] == "GateReached" and not x.get("ok")]
+        if missed:
+            ctx.extra["gates_not_reached"] = ctx.extra.get("gates_not_reached", 0) + 1
+            ctx.observations.append("scenario %d %s: nobody arrived at gate %s" % (s["id"], s["model"]["script"], missed))
         if bad or not any(x["ev"] == "End" for x in tr):
             ctx.save_debug(type("R", (), {"out": "\n".join(json.dumps(x) for x in tr)})(), "scn%d.ndjson" % s["id"])
             raise vlib.Inconclusive("scenario %d did not run as scripted (%s): %s" % (s["id"], s["model"]["script"], bad[:2]))
@@ -433,8 +452,13 @@ def run(ctx):
     # a model counterexample counts only if the real run shows it
     for i, (key, inv, shape, script) in enumerate(cex_cases, 1):
         if inv not in flagged.get(i, set()):
-            raise vlib.Inconclusive("MODEL-UNREPRODUCED deviation %s: the counterexample's scenario %d (%s) was not flagged on the real core"
-                                    % (key, i, script))
+            msg = ("MODEL-UNREPRODUCED deviation %s: the counterexample's scenario %d (%s) did not violate %s on the real core"
+                   % (key, i, script, inv))
+            if ctx.violations:
+                # recorded executions that break the property outside the known findings decide the verdict
+                ctx.observations.append(msg)
+            else:
+                raise vlib.Inconclusive(msg)
     # observations (not verdicts): TASK_FINISHED of a critical task is not a failure kind of the statement
     fin = 0
     for s in scenarios:
@@ -470,6 +494,18 @@ def signature(inv, scn, m, trl, v):
         for x in faults:
             if any(crit.get(t) for t in hit(x)):
                 f = x
+                break
+    else:
+        # the fault after which the environment left the state the operator put it in: a TASK_INTERNAL_ERROR whose
+        # handler took the environment lock for STOP_ACTIVITY, if there is one
+        seen_f, k = None, -1
+        for x in trl:
+            if x["ev"] == "Fault":
+                k += 1
+                seen_f = faults[k] if k < len(faults) else None
+            if (x["ev"] == "Hook" and x.get("env") == "e1" and x.get("point") == "env.lock.acquired" and x.get("what") == "STOP_ACTIVITY"
+                    and seen_f and seen_f[1] == "INTERNAL_ERROR"):
+                f = seen_f
                 break
     pre = "?"
     seen_fault = False
